@@ -1,5 +1,5 @@
 /-
-  OFV.Lemmas.RT2Multipart — multipart-reply records (AggregateStats, DescStats, FlowStats with Match and instructions) and
+  OFV.Lemmas.RT2Multipart — multipart-reply records (AggregateStats, DescStats, QueueStats, FlowStats with Match and instructions) and
   MultipartReply with any list of round-tripping records through Parse.  Used by OFV/Props/C05b.lean.
 -/
 import OFV.Model.All
@@ -96,6 +96,49 @@ theorem recordRT_desc (a b c d e : Bytes) (ha : a.length = 256) (hb : b.length =
       copyInto_prefix _ a _ (ha.trans z256.symm), copyInto_prefix _ b _ (hb.trans z256.symm), copyInto_prefix _ c _ (hc.trans z256.symm),
       copyInto_prefix _ d _ (hd.trans z32.symm), copyInto_prefix _ e _ (he.trans z256.symm)]
 
+
+theorem anyLen_queue (fs : List V) : anyLenM (.obj "QueueStats" fs) = QueueStats.lenM (.obj "QueueStats" fs) := rfl
+theorem anyMarshal_queue (fs : List V) : anyMarshalM (.obj "QueueStats" fs) = QueueStats.marshalM (.obj "QueueStats" fs) := rfl
+
+/-- QueueStats.MarshalBinary with a pad that is nil or at most 2 zero bytes: port, 2 pad bytes, queue id, three counters (32 bytes) -/
+theorem queueStats_marshal (p q tb tp te kp : Nat) (hkp : kp ≤ 2) :
+    anyMarshalM (.obj "QueueStats" [.num p, .bytes (zeros kp), .num q, .num tb, .num tp, .num te]) =
+      .ok (be16 (n16 p) ++ zeros 2 ++ be32 (n32 q) ++ be64 (n64 tb) ++ be64 (n64 tp) ++ be64 (n64 te),
+        .obj "QueueStats" [.num p, .bytes (zeros kp), .num q, .num tb, .num tp, .num te]) := by
+  rw [anyMarshal_queue]
+  simp only [QueueStats.marshalM]
+  rw [fill_eq 32 _ (by intro x hx; simp at hx; rcases hx with rfl | rfl | rfl | rfl | rfl | rfl <;>
+    first | trivial | (simp only [pCopyAdv, Piece.Tight, zeros_length]; exact hkp)) rfl]
+  have hz : (pCopyAdv (zeros kp) 2).bytes = zeros 2 := by
+    simp only [pCopyAdv, Piece.bytes, zeros, List.take_replicate, List.length_replicate, List.replicate_append_replicate]
+    congr 1; omega
+  simp only [piecesBytes, List.map_cons, List.map_nil, List.flatten_cons, List.flatten_nil, List.append_nil, hz, Res.bind_ok, same]
+  rfl
+
+/-- QueueStats record (32 bytes; Parse decodes it into `new(QueueStats)`, whose pad is nil and stays nil; fixed: the decoder
+    used to advance by `len(s.pad)` = 0 instead of 2 and read queue id and counters 2 bytes early) -/
+theorem recordRT_queue (p q tb tp te : Nat) (hp : p < 65536) (hq : q < 4294967296) (htb : tb < 18446744073709551616)
+    (htp : tp < 18446744073709551616) (hte : te < 18446744073709551616) :
+    RecordRT Gen.openflow13.MultipartType_Queue (.obj "QueueStats" [.num p, .bytes [], .num q, .num tb, .num tp, .num te])
+      (be16 (n16 p) ++ zeros 2 ++ be32 (n32 q) ++ be64 (n64 tb) ++ be64 (n64 tp) ++ be64 (n64 te)) := by
+  refine ⟨queueStats_marshal p q tb tp te 0 (by omega), rfl, by simp, by simp, ?_⟩
+  intro data tail hd hb
+  have hlen := Slice.len_ge_of_bytes data _ _ hb
+  have h32 : (be16 (n16 p) ++ zeros 2 ++ be32 (n32 q) ++ be64 (n64 tb) ++ be64 (n64 tp) ++ be64 (n64 te)).length = 32 := rfl
+  rw [h32] at hlen
+  have hb' : data.bytes = be16 (n16 p) ++ (zeros 2 ++ (be32 (n32 q) ++ (be64 (n64 tb) ++ (be64 (n64 tp) ++ (be64 (n64 te) ++ tail))))) := by
+    rw [hb]; simp only [List.append_assoc]
+  have e0 : rd16 (data.bytes.drop 0) = some (n16 p) := by rw [hb']; exact rd16_be16 _ _
+  have e4 : rd32 (data.bytes.drop 4) = some (n32 q) := by rw [hb']; exact rd32_be32 _ _
+  have e8 : rd64 (data.bytes.drop 8) = some (n64 tb) := by rw [hb']; exact rd64_be64 _ _
+  have e16 : rd64 (data.bytes.drop 16) = some (n64 tp) := by rw [hb']; exact rd64_be64 _ _
+  have e24 : rd64 (data.bytes.drop 24) = some (n64 te) := by rw [hb']; exact rd64_be64 _ _
+  obtain ⟨s, hs1, _, _⟩ := Slice.fromR_bytes data 2 (by omega)
+  simp only [MultipartReply.decodeRecord, Gen.openflow13.MultipartType_Desc, Gen.openflow13.MultipartType_Aggregate,
+    Gen.openflow13.MultipartType_Flow, Gen.openflow13.MultipartType_Port, Gen.openflow13.MultipartType_Table,
+    Gen.openflow13.MultipartType_Queue, Nat.reduceEqDiff, if_false, if_true, msgTryU, QueueStats.unmarshal, QueueStats.zero,
+    Slice.u16From_eq, Slice.u32From_eq, Slice.u64From_eq, Nat.reduceAdd, e0, e4, e8, e16, e24, Res.ofOption, Res.bind_ok, hs1,
+    copyInto_nil, Res.pure_eq, u16_n16 p hp, u32_n32 q hq, u64_n64 tb htb, u64_n64 tp htp, u64_n64 te hte]
 
 theorem instrsRT_snoc (init : List V) (last : V) (encs : List Bytes) (h : InstrsRT (init ++ [last]) encs) :
     ∃ ei el, encs = ei ++ [el] ∧ InstrsRT init ei ∧ InstrRT last el := by
@@ -305,6 +348,7 @@ theorem mpReply_loop (data : Slice) (hd : data.WF) (ty : Nat) (rs : List V) (es 
         (fun s => do
           let d ← data.fromR s.n
           let (r, e) ← MultipartReply.decodeRecord ty d
+          if e then .err else do
           let (l, r) ← anyLenM r
           if l = 0 then .err else
           pure { n := s.n + l.toNat, body := s.body ++ [r], err := e })
@@ -339,7 +383,7 @@ theorem mpReply_loop (data : Slice) (hd : data.WF) (ty : Nat) (rs : List V) (es 
       unfold msgLoopW
       have hcond : decide (pre.length < pre.length + (e :: es).flatten.length) = true := by
         simp only [List.flatten_cons, List.length_append, decide_eq_true_eq]; omega
-      simp only [hcond, if_true, ht1, Res.bind_ok, hdec t _ htwf htb, hl, Res.pure_eq, hto, hne, if_false]
+      simp only [hcond, if_true, ht1, Res.bind_ok, hdec t _ htwf htb, Bool.false_eq_true, hl, Res.pure_eq, hto, hne, if_false]
       have hcur : ¬ (pre.length + e.length = pre.length) := by omega
       simp only [if_false, hcur]
       have := ih (pre ++ e) rest (acc ++ [r]) j (by rw [hb]; simp) (by simp only [List.length_cons] at hfuel; omega)
